@@ -8,10 +8,19 @@
 (*   tape key   = fingerprint list: op keys, measurement keys, then the    *)
 (*                trainable indices and the shot counts APPENDED FLAT      *)
 (*                (fingerprint.extend(trainable); fingerprint.extend(shots))*)
-(*   op key     = (name, canonical parameters, wires, hyper-parameters)    *)
+(*   op key     = (name, canonical parameters, wires, hyper-parameters,    *)
+(*                array data)                                              *)
 (*   canonical parameter: named rotations RX RY RZ PhaseShift Rot U1 U2 U3 *)
 (*                are reduced mod 2*pi, CRX CRY CRZ CRot mod 4*pi, every   *)
-(*                other parameter is taken as it is                        *)
+(*                other parameter is taken as it is; ARRAY DATA (the vector *)
+(*                of StatePrep / Projector, the matrix of QubitUnitary /   *)
+(*                Hermitian / BlockEncode, ...) is taken as it is, real    *)
+(*                AND imaginary part of every entry (field m: an exact     *)
+(*                normalised ring matrix, <<>> for gates without data)     *)
+(*   measurement key = (type, observable type + observable data, wires)    *)
+(*   A tape OBJECT has no key of its own: the key of an object is the key  *)
+(*   of its current CONTENT, however the object was obtained (constructed, *)
+(*   copy(...) of a tape whose hash was already read, bind_new_parameters) *)
 (*   symbolic operators (Adjoint, Pow, generic Controlled) hash their base *)
 (*                operator with the BASE's own rule                        *)
 (*   ctrl(op) with one control of value 1 on a bare RX/RY/RZ/Rot/          *)
@@ -31,17 +40,17 @@ Canon(g, a) == IF g \in Red2pi THEN a % TwoPi ELSE IF g \in Red4pi THEN a % (2 *
 CanonP(g, p) == [i \in 1..Len(p) |-> Canon(g, p[i])]
 NamedCtrl(g) == CASE g = "RX" -> "CRX" [] g = "RY" -> "CRY" [] g = "RZ" -> "CRZ" [] g = "Rot" -> "CRot"
                   [] g \in {"PhaseShift", "U1"} -> "ControlledPhaseShift" [] OTHER -> ""
-BaseKey(g, p, x) == <<g, CanonP(g, p), x>>
+BaseKey(g, p, x, m) == <<g, CanonP(g, p), x, m>>
 
 \* key of the term r with its first i modifiers applied (mods are innermost first)
 RECURSIVE TermKey(_, _)
 TermKey(r, i) ==
-  IF i = 0 THEN BaseKey(r.g, r.p, r.x)
+  IF i = 0 THEN BaseKey(r.g, r.p, r.x, r.m)
   ELSE LET md == r.mods[i] IN
        CASE md.t = "adj"  -> <<"Adjoint", TermKey(r, i - 1)>>
          [] md.t = "pow"  -> <<"Pow", md.z, TermKey(r, i - 1)>>
          [] md.t = "ctrl" -> IF i = 1 /\ md.cv = <<1>> /\ NamedCtrl(r.g) # ""
-                             THEN BaseKey(NamedCtrl(r.g), r.p, r.x)
+                             THEN BaseKey(NamedCtrl(r.g), r.p, r.x, r.m)
                              ELSE <<"C", TermKey(r, i - 1), md.cv>>
 \* wires are compared as one list (control wires first): equal structure + equal list = equal wires at every level
 OpKey(r) == <<TermKey(r, Len(r.mods)), r.w>>
